@@ -1,6 +1,7 @@
 import Efp.Theory.Checker
 import Efp.Model.Graph
 import Efp.Proofs.Chain
+import Efp.Proofs.ChainTerm
 /-!
 # C08 — the calculation graph is consistent and complete
 
@@ -11,7 +12,8 @@ real code after builds, edit histories, simulations and toggles (`K-graph`).
 once, after everything it depends on, and contains **every** dependent of the edited inputs
 (`update_order_*` below, for every graph).  The order the code itself derives has these properties
 on every graph without shared ids (`code_update_order_correct`, proved about the literal port of
-`attr_updates_chain` in `Proofs/Chain.lean`; termination is not proved).
+`attr_updates_chain` in `Proofs/Chain.lean`), and on acyclic graphs with mirrored links the
+algorithm terminates (`code_update_order_terminates`, `Proofs/ChainTerm.lean`).
 *Complete* (every true read is a recorded ancestor) is a statement about the rules' bodies; it is
 tested by perturbation on the real code and is an assumption (H1) of C01's theorems.
 -/
@@ -69,6 +71,15 @@ theorem code_update_order_correct (g : Efp.Graph.G) (hwf : Efp.Graph.wfOk g = tr
     (∀ l₁ c l₂, chain.map Prod.fst = l₁ ++ c :: l₂ →
       ∀ a ∈ (g.node c).anc, ∀ k, Efp.Graph.ReachN g u k a → k ≤ fuel → a ∈ l₁) :=
   Efp.Graph.attrUpdatesChain_correct g (Efp.Graph.wfOk_sound g hwf) fuel u hu chain h
+
+/-- **deriving the update order terminates** on acyclic graphs without shared ids whose ancestor
+links are mirrored by child links (finding D13 is a hang of this loop when ids are shared) -/
+theorem code_update_order_terminates (g : Efp.Graph.G) (fuel u : Nat) (rk : Array Nat)
+    (hwf : Efp.Graph.wfOk g = true) (hbi : Efp.Graph.ancInChiOk g = true)
+    (hrk : Efp.Graph.rankOk g rk fuel = true) (hu : u < g.size) (hfuel : 2 * g.size + 2 ≤ fuel) :
+    ∃ chain, Efp.Graph.attrUpdatesChain g fuel u = some chain :=
+  Efp.Graph.attrUpdatesChain_terminates g (Efp.Graph.wfOk_sound g hwf) (fun x => rk[x]!)
+    (Efp.Graph.rankOk_RankOK g rk fuel hrk) (Efp.Graph.ancInChiOk_sound g hbi) fuel u hu hfuel
 
 /-! ## non-vacuity -/
 def demoReads : Nat → List Nat
